@@ -96,7 +96,9 @@ CLAIMED = {
        "documentation of the repaired defect (old_write_duplicates). Over the GENERATED step lists: write_prefix_atomic, write_clears_before_kp_deletion, and atomicity of "
        "apply_pending_commit / apply_detached_commit / update_key_schedule / state_repo insert. Tie: translator + a sweep that fails every storage / key-package / PSK-store call "
        "of process / apply / build / join / write once (thorough: twice) on real members with in-memory and SQLite storage, comparing state, stored snapshot, stored epoch "
-       "records (incl. the id inside each record) and key-package store with the fault-free run.",
+       "records (incl. the id inside each record) and key-package store with the fault-free run; sweeps of create / key-package generation / load_group, of a late message of a stored epoch, of a commit "
+       "over cached by-reference proposals (defect F39, fixed), re-init and pending-own-update variants, pairs of faults in the quick tier, stored bytes compared after every retry; a sweep that finds no "
+       "provider call is reported unless the operation legitimately makes none.",
   note="Trusted: Lean kernel, translator, harness. A storage write that succeeded before a later call failed cannot be undone: the pending-insert list is compared jointly with the "
        "storage (each epoch stored or pending, never both). SQLite transaction atomicity and crashes inside a provider are assumptions.",
   ref="DESIGN.md §4 C04/C15"),
@@ -107,7 +109,9 @@ CLAIMED = {
        "(backends_bisimilar); loading returns the stored state of the last write whatever happened after it (load_returns_last_write). Tie: subjects on both real providers "
        "follow the same traffic with random write / write+reload / crash points and a never-reloaded twin; every component of the loaded group is compared with the written "
        "one and with the twin; each repository operation is a row replayed on the compiled model (stored ids, availability); each subject also CREATES a second group on the same "
-       "storage (stored history starts at epoch 0, one or two epochs per write) whose repository operations are model streams of their own (first trim of epoch 0 on either back end).",
+       "storage (stored history starts at epoch 0, one or two epochs per write) whose repository operations are model streams of their own (first trim of epoch 0 on either back end). The subjects also take proposer and committer turns (own pending Update, "
+       "cached proposals, a pending commit that is later applied, received back or superseded) with write / reload / crash at each of these points, a never-reloaded twin for both subjects compared every "
+       "round, reload through a fresh client (SQLite: a new connection to the same file), and catch-up after a crash by re-delivery of the lost commits.",
   note="Trusted: Lean kernel, model validated by rows, harness. The byte-level snapshot round trip of the member state is C12's codec theorem + this check's component comparison; "
        "the SQLite transaction is one atomic step (assumption).",
   ref="DESIGN.md §4 C06/C19"),
@@ -156,7 +160,8 @@ CLAIMED = {
        "path secret satisfies KeyInv in the committer's tree, for every position relative to the committer and several joiners; the key-package deletion is the last fallible step of the "
        "generated write_to_storage list. Tie: `joiner`/`slots` rows of the tree stream; scenarios on real clients: joiner state == committer state (context, tree, authenticator, "
        "exporter), immediate send/commit, key package gone after the first write and Welcome not reusable, foreign client / stale GroupInfo refused, external commit and a commit by the "
-       "external joiner, re-join after removal with the same storage.",
+       "external joiner, re-join after removal with the same storage; mismatch matrix (Welcome with the tree of the previous / next epoch, no tree, one node changed, a stranger with a key package "
+       "of its own, two key packages of which one is addressed), Welcome joiners receive and commit, external commits with out-of-band tree / removal of the old self / external PSK / stale GroupInfo.",
   note="Trusted: Lean kernel, models validated by rows, harness. Recorded known finding F14 (re-join with storage holding earlier prior epochs -> InvalidEpoch on the next commit). "
        "Last-resort key packages need a cargo feature the default build lacks: not exercised. External-commit joins are checked by the oracle only.",
   ref="DESIGN.md §4 C07"),
@@ -191,7 +196,9 @@ CLAIMED = {
        "message agrees with the honestly sent one on every covered field, a message verified under another group context / epoch / sender or with any modified content field is rejected, and an "
        "accepted signature or tag was produced by a holder of the key (Dolev-Yao derivability); (c) insider: a path accepted by the un-filtering loop of validate_update_path (incl. the length "
        "check added by fix F11) makes decap total - never an index out of bounds (validated_path_no_oob). Tie: translator + per quick run ~12k mutated / replayed / re-attributed / insider re-signed "
-       "messages delivered to real receivers (each must be an error, never a panic or acceptance) and ~1.9k `unfilter` rows from too-short / too-long update paths with consistent hashes on sparse trees.",
+       "messages delivered to real receivers (each must be an error, never a panic or acceptance) and ~1.9k `unfilter` rows from too-short / too-long update paths with consistent hashes on sparse trees; forged ratchet trees: a member signs a GroupInfo for an edited copy of its "
+       "tree (12 edits of unmerged lists, blanks, keys, leaves, parent hashes; hook verif_group_info_for_edited_tree) and an observer and an external joiner must refuse it (defect F37, fixed); "
+       "update-path keys re-used from the tree with consistent hashes (known finding F38).",
   note="Trusted: Lean kernel; free-symbol idealisation of signature / MAC / AEAD; field-list extractor of tools/translate.py; harness. Exhaustive single-bit flips only for the first scenario of the "
        "thorough tier (sampled otherwise). Fixed defect found here: F11 (short update path with consistent parent hash panicked every receiver above the cut).",
   ref="DESIGN.md §4 C03"),
@@ -247,7 +254,9 @@ CLAIMED = {
        "Lean model recomputes hash, HMAC, HKDF of every provider and the key / nonce sequence / export / DHKEM shared secret / dkp_prk / derived secret key / rejection-sampling candidates of "
        "the REAL generic Hpke and DhKem code driven with scripted KEM/DH and a recording AEAD over each provider's KDF (RFC 9180 vectors reproduced); ~7.9k side-by-side primitive cases over "
        "all providers and common suites incl. empty / boundary lengths, wrong key / nonce / tag, malformed keys, every (sealer, opener) and (signer, verifier) pair; 1.6k X.509 rows "
-       "(3 validators x generated chains x boundary times) against the model verdict; 14 mixed-provider group histories over suites 1-7 with the C01 agreement oracle.",
+       "(3 validators x generated chains x boundary times) against the model verdict; 14 mixed-provider group histories over suites 1-7 with the C01 agreement oracle; an audit section with fixed inputs: NIST public-key encodings (infinity, hybrid, compact, "
+       "compressed, off-curve, wrong length), X25519 low-order keys (validate / seal / forged open), kem_generate secret formats and cross-use, X.509 outer signatureAlgorithm mismatch, trailing DER bytes, "
+       "crafted subjects through the three readers (panic / identity), AEAD and HPKE degenerate inputs — every divergence has a class of its own, matched exactly against the recorded findings F18-F23, F42-F46.",
   note="Trusted: Lean kernel; abstract-primitive hypotheses (KEM/DH correctness, AEAD inverse and binding); no Lean model of AES-GCM / ChaCha20-Poly1305 / curves / signatures - those are "
        "compared between providers only; harness. Defects found and fixed here: F24-F30 (RustCrypto nonce-length panic, OpenSSL nonce length, AWS-LC X25519 key length, AWS-LC HKDF guards, "
        "AWS-LC empty plaintext, OpenSSL expand length 0, OpenSSL NO_CHECK_TIME). Recorded known findings: F18-F23 (HMAC empty key, malformed signature secret keys, notAfter boundary, anchor "
